@@ -14,10 +14,10 @@ RULE = ("case = DAG (kMinPathError, also run through kMinPathErrorCycles as diff
         "witness (cyclic). non-trivial = optimum > 0 or >= 2 routes; distinct = full input")
 CASE_TIMEOUT = {"quick": 150, "thorough": 600}
 REQUIRED_OBS = {"c08.solved_judged": 120, "c08.dag_optimum_compared": 60, "c08.cyc_witness_compared": 30, "c08.k_none_cases": 10, "c08.differential_pairs": 30}
-ASSUMPTIONS = ["k-MPE MILPs are heavy-tailed: graphs <= 8 edges, k <= 4; a solve that hits the 30 s solver limit yields no verdict",
+ASSUMPTIONS = ["k-MPE MILPs are heavy-tailed: graphs <= 8 edges, k <= 4; a solve that hits the 10 s solver limit yields no verdict",
                "cyclic optimality is a witness comparison (multiplicities <= 3)"]
 EXHAUSTIVE = {"quick": False, "thorough": False}
-SO = {"threads": 1, "time_limit": 30}
+SO = {"threads": 1, "time_limit": 10}
 
 
 def gen_cases(tier, seed):
@@ -185,7 +185,7 @@ def run_case(case):
         return {"viol": [], "obs": {"c08.not_coverable_or_too_wide": 1}, "nontrivial": False}
     k = None if case["knone"] else width + case["kdelta"]
     if case["superset"] is not None:
-        case = dict(case); case["superset"] = (case["superset"] * 2)[:max(len(case["superset"]), width + 1)]
+        case = dict(case); case["superset"] = (case["superset"] * 3)[:max(len(case["superset"]), width + 3)]
     desc = f"{'cyclic' if cyc else 'DAG'} mode={mode} wt={wt} k={k} width={width} {dshow} ignore={sorted(map(str, ign))} scale={sc} starts={case['starts']} ends={case['ends']} superset={case['superset']} plr={case.get('plr')}"
     tags = [t for t, c in (("node", mode == "node"), ("ignore", ign), ("scale", sc), ("starts/ends", case["starts"] or case["ends"]), ("superset", case["superset"] is not None), ("plr", case.get("plr")), ("float", wt == "float"), ("k=None", k is None)) if c]
     tagstr = ("/" + "/".join(tags)) if tags else ""
@@ -225,6 +225,8 @@ def run_case(case):
             if getattr(m, "k", None) != width and case["superset"] is None:
                 viol.append({"sig": f"C08/{cls}/k=None-picks-{'more' if m.k > width else 'fewer'}-than-covering-number{tagstr}", "msg": f"model.k = {m.k}, reference covering number {width}; {desc}"})
         routes = models.routes_of(sol)
+        if len([r for r in routes if r]) > keff:
+            viol.append({"sig": f"C08/{cls}/more-than-k-routes{tagstr}", "msg": f"{len([r for r in routes if r])} non-empty routes for k={keff}; {routes}; {desc}"})
         for key in ("weights", "slacks"):
             if key not in sol or len(sol[key]) != len(routes):
                 viol.append({"sig": f"C08/{cls}/missing-{key}{tagstr}", "msg": f"{sol.get(key)!r}; {desc}"})
